@@ -198,6 +198,53 @@ Section Follow.
       destruct (follow_complete_form st Hc Hst _ H u A [] eq_refl) as [_ I]. now apply I.
   Qed.
 
+  (** ** the table is the least set closed under the three FOLLOW rules (every grammar) *)
+  Inductive followI : nat -> option nat -> Prop :=
+  | fI_start : followI (start G) None
+  | fI_first p b1 B b2 a :
+      In p (prods G) -> body p = b1 ++ Nt B :: b2 -> fstr fi b2 a -> followI B (Some a)
+  | fI_inherit p b1 B b2 x :
+      In p (prods G) -> body p = b1 ++ Nt B :: b2 -> nstr fi b2 -> followI (head p) x -> followI B x.
+
+  Definition follow_ruled (st : list fact) : Prop := forall A x, In (A, x) st -> followI A x.
+
+  Lemma follow_body_ruled p : In p (prods G) ->
+    forall b pre st, body p = pre ++ b -> follow_ruled st -> follow_ruled (follow_body fi (head p) b st).
+  Proof.
+    intros Hp. induction b as [|[c|B] b IH]; intros pre st Hb Hs; simpl; [exact Hs | |].
+    - apply (IH (pre ++ [Tm c])); [now rewrite <- app_assoc | exact Hs].
+    - destruct (first_str_spec fi b) as [F1 F2].
+      set (st1 := add_terms B (fst (first_str fi b)) st).
+      assert (Hs1 : follow_ruled st1).
+      { intros A x Hx. apply add_terms_In in Hx. destruct Hx as [[a [Ha E]]|Hx]; [|now apply Hs].
+        inversion E; subst A x. apply F1 in Ha. now apply (fI_first p pre B b a). }
+      set (st2 := if snd (first_str fi b) then add_all fact_eqb (map (fun x => (B, x)) (set_of st1 (head p))) st1 else st1).
+      assert (Hs2 : follow_ruled st2).
+      { unfold st2. destruct (snd (first_str fi b)) eqn:E; [|exact Hs1].
+        intros A x Hx. apply (add_all_In fact_eqb fact_eqb_eq) in Hx. destruct Hx as [Hx|Hx]; [|now apply Hs1].
+        apply in_map_iff in Hx. destruct Hx as [y [E' Hy]]. inversion E'; subst A x.
+        apply set_of_In in Hy. apply (fI_inherit p pre B b y Hp Hb); [now apply F2 | now apply Hs1]. }
+      apply (IH (pre ++ [Nt B])); [now rewrite <- app_assoc | exact Hs2].
+  Qed.
+
+  Lemma follow_fold_ruled l st :
+    incl l (prods G) -> follow_ruled st ->
+    follow_ruled (fold_left (fun st p => follow_body fi (head p) (body p) st) l st).
+  Proof.
+    revert st; induction l as [|p l IH]; intros st Hl Hs; simpl; [exact Hs|].
+    apply IH; [intros x Hx; apply Hl; now right|].
+    apply (follow_body_ruled p (Hl p (or_introl eq_refl)) (body p) []); auto.
+  Qed.
+
+  Lemma follow_closed_contains st :
+    follow_closed st -> In (start G, None) st -> forall A x, followI A x -> In (A, x) st.
+  Proof.
+    intros Hc Hst A x H. induction H as [|p b1 B b2 a Hp Hb Ha | p b1 B b2 x Hp Hb Hn _ IH].
+    - exact Hst.
+    - destruct (Hc p Hp b1 B b2 Hb) as [K _]. now apply K.
+    - destruct (Hc p Hp b1 B b2 Hb) as [_ K]. now apply K.
+  Qed.
+
   (** ** termination *)
   Definition body_nts (b : list sym) : list nat :=
     flat_map (fun s => match s with Nt B => [B] | Tm _ => [] end) b.
@@ -313,7 +360,8 @@ Section Follow.
     exists st, follow_table G O fi = Some st /\
       (forall A, (forall a, follow_sem G A a -> In (A, Some a) st) /\ (follow_end G A -> In (A, None) st)) /\
       (heads_reachable -> follow_sound st) /\
-      follow_closed st /\ In (start G, None) st /\ incl st follow_universe.
+      follow_closed st /\ In (start G, None) st /\ incl st follow_universe /\
+      (forall A x, In (A, x) st <-> followI A x).
   Proof.
     destruct (follow_table G O fi) as [st|] eqn:E; [|now destruct follow_table_terminates].
     exists st. split; [reflexivity|]. unfold follow_table in E.
@@ -324,7 +372,7 @@ Section Follow.
     { eapply (sat_loop_inv passes (fun x => In (start G, None) x)); [| |exact E].
       - intros j x Hx. now apply (extends_incl _ _ (passes_ext j x)).
       - now left. }
-    split; [|split; [|split; [|split]]]; auto.
+    split; [|split; [|split; [|split; [|split]]]]; auto.
     - intros A. now apply follow_complete.
     - intros Hr. eapply (sat_loop_inv passes follow_sound); [| apply follow_init_sound | exact E].
       intros j x Hx. apply follow_fold_sound; auto.
@@ -333,5 +381,10 @@ Section Follow.
       + intros j x H. apply (follow_fold_inv (o_follow O j) x (HO1 j) (proj1 H) (proj2 H)).
       + split; [constructor; [intros [] | constructor]|].
         intros x [<-|[]]. apply in_funiverse; [now left | exact I].
+    - intros A x. split; [|now apply follow_closed_contains].
+      revert A x. change (follow_ruled st).
+      eapply (sat_loop_inv passes follow_ruled); [| |exact E].
+      + intros j y Hy. apply follow_fold_ruled; auto.
+      + intros A x [H|[]]. inversion H; subst. constructor.
   Qed.
 End Follow.
